@@ -367,6 +367,10 @@ func (w *World) monTokenReqs(rec *CheckRec) {
 			}
 			w.codeDone[d.tr.Code] = rec
 			w.probe("logins-completed")
+			// ... and that redirect names, byte for byte, the URL the session's login redirect was issued for
+			if d.sm.URL != "" && rec.Location != d.sm.URL {
+				w.violate("C13", "return-location-differs-from-requested-url", fmt.Sprintf("check #%d: the login of session %s was started by a request for %q; after the exchange the Location is %q", rec.N, w.canon(d.sm.SID), d.sm.URL, rec.Location))
+			}
 		}
 	}
 	if len(w.pendingDone) > 0 {
